@@ -29,9 +29,9 @@ func init() {
 		},
 		Quick:    250000,
 		Thorough: 4000000,
-		Require:  []string{"ping.writeFails", "stream.readEndsInsideNextFrame", "handshake.slow", "received.requestWithSlowHandler", "received.peerPing", "received.strayAck", "keepalive.pingSent", "tick.exactlyAtPeriod", "tick.foundInactive", "pong.superseded"},
+		Require:  []string{"ping.writeFails", "stream.readEndsInsideNextFrame", "handshake.slow", "received.requestWithSlowHandler", "received.peerPing", "received.strayAck", "keepalive.pingSent", "tick.exactlyAtPeriod", "tick.foundInactive", "pong.superseded", "tick.insideThePeriodOfAPing"},
 		Assume: []string{
-			"keep-alive counts consecutive inactivity detections (a tick with now > last receive + period) since the last reset; the literal 'more than maxRetries pings unanswered' is never satisfied by any implementation that sends maxRetries pings",
+			"keep-alive counts consecutive inactivity detections since the last reset; a detection is a tick later than one period after the last received message or the last detection (= the last ping), whichever is later: a ping has a period to be answered, whatever the spacing of the housekeeping ticks; the literal 'more than maxRetries pings unanswered' is never satisfied by any implementation that sends maxRetries pings",
 			"a pong for a superseded ping is accepted as either a reset or not (it is a received message; the statement does not say which wins)",
 			"the model's clock for the tick is the now handed to the tick; handlers return at once",
 			"S-MONITOR/server-keepalive: a real udp / dtls / tcp server with WithKeepAlive and 2-4 peers that either answer every ping at once or never: an answering peer is never closed, a dead one is closed after at least maxRetries pings of its own went unanswered and at the latest maxRetries+2 late ticks after the script ends",
@@ -100,6 +100,10 @@ func c18Run(e *Env, keepalive bool) {
 
 	// reference model (A.7)
 	lastRx := e.Now() // the monitor is armed when it is created
+	// keep-alive: a ping is given a period to be answered. The period that is running began with the last received
+	// message or with the last detection (= the last ping), whichever is later; housekeeping ticks inside it are not
+	// detections, however many there are.
+	periodStart := lastRx
 	detMin, detMax := 0, 0
 	shadow := 0 // detections counted as if only a matching pong reset them (used for the signature only, never for the verdict)
 	type ping struct {
@@ -151,6 +155,7 @@ func c18Run(e *Env, keepalive bool) {
 		sinceAdvance++
 		w.Emit(it, false)
 		lastRx = e.Now()
+		periodStart = lastRx
 		switch reset {
 		case 1:
 			detMin, detMax = 0, 0
@@ -230,7 +235,7 @@ func c18Run(e *Env, keepalive bool) {
 		}
 		// tick at time t
 		evs = append(evs, Event{Label: "tick", W: 6, Do: func() {
-			left := lastRx + period - e.Now() // time until the connection counts as inactive
+			left := periodStart + period - e.Now() // time until the connection counts as inactive (again)
 			var dt time.Duration
 			switch t.Weighted(3, 2, 2, 2, 2, 1, 1) {
 			case 0:
@@ -262,9 +267,12 @@ func c18Run(e *Env, keepalive bool) {
 				e.Fault("tick.staleNow")
 			}
 			tickNow := e.Now() - stale
-			inactive := tickNow > lastRx+period
+			inactive := tickNow > periodStart+period
 			e.Fault("tick")
-			if tickNow == lastRx+period {
+			if tickNow > lastRx+period && !inactive {
+				e.Probe("tick.insideThePeriodOfAPing")
+			}
+			if tickNow == periodStart+period {
 				e.Probe("tick.exactlyAtPeriod")
 			}
 			expectClose, mayClose, expectPing := false, false, false
@@ -272,6 +280,7 @@ func c18Run(e *Env, keepalive bool) {
 				e.NonTrivial()
 				e.Probe("tick.foundInactive")
 				if keepalive {
+					periodStart = tickNow
 					detMin++
 					detMax++
 					shadow++
@@ -309,6 +318,9 @@ func c18Run(e *Env, keepalive bool) {
 			switch {
 			case closed() && !mayClose:
 				rule, sig := "C18.R1", "closed-without-a-full-idle-period"
+				if keepalive && !inactive && tickNow > lastRx+period {
+					rule, sig = "C18.R3", "keepalive-closed-before-retries-exhausted:ticks-counted-as-periods"
+				}
 				if keepalive && inactive {
 					rule, sig = "C18.R3", "keepalive-closed-before-retries-exhausted"
 					if shadow > int(maxRetries) {
